@@ -14,9 +14,11 @@ Enumerated (completely, simplest first; K = 2 quick / 3 thorough, see blocks()):
         the dimensions the rendering of the report can depend on)
   lines message "x": the full product again on the two other command lines
   cli   ALL messages of 1..K fragments as unknown command name / unknown option x verbosity x ANSI/plain
+KeyboardInterrupt is never rendered: it is enumerated with the messages of <= 1 fragment only.
+Not demanded (the statement is silent): which stream the report goes to, its wording (C20), the exact non-zero status of
+an exception, anything about BaseExceptions other than KeyboardInterrupt (SystemExit ...), output of successful runs.
 """
 import itertools
-import math
 
 from mc import common, par, report
 from props import _trace
